@@ -1870,6 +1870,8 @@ class Interp:
             self.ev(node.cause)
         if isinstance(v, VConst) and isinstance(v.obj, type) and issubclass(v.obj, BaseException):
             v = self.construct(v.obj, [], {}, node)
+        if isinstance(v, VConst) and isinstance(v.obj, BaseException):
+            v = VExc(type(v.obj), origin=_src(node), lineno=node.lineno)   # a module-level instance
         if isinstance(v, VExc):
             v.origin = v.origin or _src(node)
             v.lineno = node.lineno
